@@ -76,6 +76,23 @@ def run(ctx, args):
     modeld = build_driver(ctx, "modeld_c17")
     harness = build_go_harness(ctx, "c17", overlay={"internal/buildtags/zz_verif_export.go": "overlay/zz_buildtags_export.go.txt"})
 
+    # stand-in pkg-config / llvm-config (the sub-command is a parameter of the model: Driver/C17.lean `fakeConfig`)
+    bindir = os.path.join(ctx.scratch, "fakebin")
+    os.makedirs(bindir, exist_ok=True)
+    script = """#!/bin/sh
+for a in "$@"; do [ "$a" = "--fail" ] && exit 1; done
+for a in "$@"; do [ "$a" = "--nl" ] && { printf -- '-La\\n-lb\\n'; exit 0; }; done
+out="-DARGS="; first=1
+for a in "$@"; do if [ $first = 1 ]; then out="$out$a"; first=0; else out="$out,$a"; fi; done
+printf '%s\\n' "$out"
+"""
+    for nm in ("pkg-config", "llvm-config"):
+        with open(os.path.join(bindir, nm), "w") as f:
+            f.write(script)
+        os.chmod(os.path.join(bindir, nm), 0o755)
+    henv = dict(os.environ)
+    henv["PATH"] = bindir + os.pathsep + henv["PATH"]
+
     cases = []   # (kind, line, expected or None, meta)
     # corpus first
     corpus = [
@@ -138,12 +155,68 @@ def run(ctx, args):
             if not fl:
                 fl = ["-v"]
             cases.append(("tags", "tags " + ",".join(hexs(x) for x in fl), None, fl))
-        else:
+        elif k == 9 and i % 20 == 9:
             keys = rng.sample(["a", "b", "c", "port", ""], rng.randint(0, 3))
             kv = {k_: rstr(rng, 6, alpha=["x", "y", "{", "}", "a", "b", " "]) for k_ in keys}
             t = rstr(rng, 14, alpha=["{", "}", "a", "b", "c", "x", " ", "{a}", "{b}", "{}", "{port}"])
             d = rstr(rng, 4, alpha=["d", "{", "}", "a"])
             cases.append(("expand", (t, d, kv), None, (t, d, kv)))
+        else:                # link directives: $VAR / ${VAR} / $(pkg-config ...) mixed with literals
+            names = rng.sample(["A", "B", "PREFIX", "X_1", "a"], rng.randint(0, 3))
+            kv = {n_: rstr(rng, 6, alpha=["x", "/", "-", "l", " ", "$", "L", "\u00e9"]) for n_ in names}
+            pieces = []
+            for _ in range(rng.randint(0, 5)):
+                r = rng.random()
+                if r < 0.25:
+                    pieces.append(rstr(rng, 6, alpha=["-", "l", "L", "a", " ", "/", "\t", ")", "(", "{", "}", "\u00e9"]))
+                elif r < 0.45:
+                    pieces.append("$" + rng.choice(["A", "B", "PREFIX", "X_1", "a", "NOPE", "1", "*", ""]))
+                elif r < 0.6:
+                    pieces.append("${" + rng.choice(["A", "B", "PREFIX", "NOPE", "", "A B", "*"]) + rng.choice(["}", "}", "}", ""]))
+                else:
+                    sep = rng.choice([" ", " ", "  ", "\t", "\n", " \t "])
+                    cmd = rng.choice(["pkg-config", "pkg-config", "llvm-config", "echo", "pkg-config2", ""])
+                    args_ = [rng.choice(["--libs", "--cflags", "foo", "bar", "--nl", "--fail", "$A", "a=b"]) for _ in range(rng.randint(0, 3))]
+                    inner = rng.choice(["", " ", "  "]) + sep.join([cmd] + args_) + rng.choice(["", " ", "\n"])
+                    pieces.append("$(" + inner + rng.choice([")", ")", ")", ""]))
+            t = rng.choice(["", " ", "\t"]).join(pieces)
+            enc = ",".join(hexs(k_) + "=" + hexs(v) for k_, v in kv.items()) if kv else "."
+            cases.append(("xenv", "xenv %s %s" % (hexs(t), enc), None, (t, kv)))
+            # well-formed twin with an expectation computed here, independently of the Lean model:
+            # literals, ${NAME}/$NAME references and $(pkg-config words) each contribute exactly their value
+            kv2 = {"A": rng.choice(["/opt/a", "x", ""]), "PREFIX": rng.choice(["/usr", "/o p"]), "X_1": "-lz"}
+            txt, val, cfg = "", "", False
+            for _ in range(rng.randint(1, 5)):
+                r = rng.random()
+                if r < 0.3:
+                    lit = rng.choice(["-L", "-l", "/lib", " ", "-I", "\u00e9", "/", "-Wl,", "  "])
+                    txt += lit
+                    val += lit
+                elif r < 0.6:
+                    nme = rng.choice(["A", "PREFIX", "X_1", "UNDEFINED_VAR"])
+                    if rng.random() < 0.5:
+                        txt += "${" + nme + "}"
+                    else:
+                        txt += "$" + nme + "/"
+                        val_suffix = "/"
+                    val += kv2.get(nme, "")
+                    if txt.endswith("/") and not txt.endswith("}"):
+                        val += "/"
+                else:
+                    cmd = rng.choice(["pkg-config", "llvm-config"])
+                    words = [rng.choice(["--libs", "--cflags", "foo", "bar", "a=b", "--nl"]) for _ in range(rng.randint(0, 3))]
+                    seps = [rng.choice([" ", "  ", "\t", "\n", " \t"]) for _ in words]
+                    txt += "$(" + rng.choice(["", " "]) + cmd + "".join(sp + w for sp, w in zip(seps, words)) + rng.choice(["", " "]) + ")" + " "
+                    out = "-La -lb" if "--nl" in words else "-DARGS=" + ",".join(words)
+                    val += out + " "
+                    cfg = True
+            exp_r = val.strip(" \t\n")
+            exp_args = [] if exp_r == "" else (exp_r.split() if cfg else [exp_r])
+            # the argument list is judged only where the flag syntax is unambiguous (no '-' inside a flag: see the
+            # known finding safesplit:content-starting-with-dash); the expanded STRING is always judged
+            ok_args = (not cfg) or all(a.startswith("-") and len(a) > 1 and "-" not in a[1:] for a in exp_args)
+            enc2 = ",".join(hexs(k_) + "=" + hexs(v) for k_, v in kv2.items())
+            cases.append(("xenv-wf", "xenv %s %s" % (hexs(txt), enc2), (exp_r, exp_args if ok_args else None), (txt, kv2)))
 
     # protocol lines; `expand` needs the model for every iteration order of the map
     lines_real, lines_model, index = [], [], []
@@ -161,7 +234,7 @@ def run(ctx, args):
             lines_real.append(line)
             lines_model.append(line)
             index.append(1)
-    real, rc, err = run_lines([harness], lines_real)
+    real, rc, err = run_lines([harness], lines_real, env=henv)
     model, rc2, err2 = run_lines([modeld], lines_model)
     if len(real) != len(lines_real) or len(model) != len(lines_model):
         raise RuntimeError("driver/harness died: real %d/%d model %d/%d\n%s\n%s" % (len(real), len(lines_real), len(model), len(lines_model), err[-2000:], err2[-2000:]))
@@ -200,6 +273,17 @@ def run(ctx, args):
                 cls = classify_split_failure(meta)
                 key = cls if cls else "safesplit:roundtrip:" + lines_real[ci]
                 ctx.report(key, "SplitPkgConfigFlags(join(esc flags)) != flags", {"flags": meta, "line": lines_real[ci], "real": r})
+        elif kind == "xenv-wf":
+            exp_r, exp_args = exp
+            want = "ok " + hexs(exp_r) + " | "
+            okr = r.startswith(want)
+            if okr and exp_args is not None:
+                okr = r == want + (" ".join(hexs(a) for a in exp_args) if exp_args else ".")
+            if not okr:
+                spec_fail += 1
+                ctx.report("xenv:expansion:" + lines_real[ci], "ExpandEnv/ExpandEnvToArgs does not substitute exactly the referenced values",
+                           {"template": meta[0], "env": meta[1], "expected": [exp_r, exp_args], "real": r, "line": lines_real[ci],
+                            "note": "pkg-config/llvm-config are the stand-in scripts of checks/c17.py"})
         elif kind == "expand":
             if len(set(ms)) > 1:
                 stats["expand-order-dependent"] = stats.get("expand-order-dependent", 0) + 1
